@@ -1,4 +1,5 @@
 import re
+import threading
 from configparser import ConfigParser
 from io import StringIO
 from warnings import warn
@@ -1925,6 +1926,7 @@ class LazyCryptContext(CryptContext):
     def __init__(self, schemes=None, **kwds):
         if schemes is not None:
             kwds["schemes"] = schemes
+        self._lazy_lock = threading.RLock()
         self._lazy_kwds = kwds
 
     def _lazy_init(self):
@@ -1937,8 +1939,11 @@ class LazyCryptContext(CryptContext):
         self.__class__ = CryptContext
 
     def __getattribute__(self, attr):
-        if (
-            not attr.startswith("_") or attr.startswith("__")
-        ) and self._lazy_kwds is not None:
-            self._lazy_init()
+        if not attr.startswith("_") or attr.startswith("__"):
+            # NOTE: until loading has completed (and the class has been switched), every public
+            #       access goes through the lock, so that a second thread waits for the loader
+            #       instead of seeing (or re-running) a half-finished initialization.
+            with object.__getattribute__(self, "_lazy_lock"):
+                if self._lazy_kwds is not None:
+                    self._lazy_init()
         return object.__getattribute__(self, attr)
